@@ -207,6 +207,9 @@ def enumeration_handmade():
             (dict(x='bool'), dict(y=(0, 2)), "x' <=> ~ x", r"(x => (y' = 2)) /\ (~ x => (y' = y))", 'x', 'y = 0'),
             (dict(x=(0, 2)), dict(y='bool'), "x' # x", "y' <=> (x = 1)", 'x = 0', '~ y'),
             (dict(x='bool'), dict(y='bool', v=(-1, 1)), 'TRUE', r"(y' <=> x) /\ (v' = -1 \/ v' = v)", 'TRUE', r'y /\ (v = 0)'),
+            # implementation initial conditions that read the environment's initial value
+            (dict(x=(0, 3)), dict(y=(0, 3)), "x' = x", "y' = y", 'x >= 1', r'(y = 3) \/ ((x = 1) /\ (y = 0))'),
+            (dict(x='bool'), dict(y=(0, 2)), 'TRUE', r"y' = y", 'TRUE', r'(y = 2) \/ (x /\ (y = 1))'),
         ]
         for de, ds, ea, sa, ei, si in cases:
             for moore in (True, False):
